@@ -90,6 +90,10 @@ class MultiCrossBlockRepeat(Block):
         self.alignment = normalize_alignment(who, alignment)
 
         crossings = [c for c in crossings if len(c) > 0]
+        # The block records its geometry in its constraints (`init_within_block`), so it
+        # must own them: work on copies and leave the caller's objects untouched, so that
+        # they can be used to build other blocks
+        constraints = [copy.copy(ct) for ct in constraints]
 
         from sweetpea._internal.constraint import Cross, Consistency, Sustain
         from sweetpea._internal.derivation_processor import DerivationProcessor
